@@ -449,6 +449,9 @@ class HttpParser:
             raise InvalidChunkSize(chunk_size)
 
         if chunk_size == 0:
+            # the last chunk is only over after the trailer section (if any) and the final CRLF
+            if rest_chunk[:2] != b'\r\n' and rest_chunk.find(b'\r\n\r\n') < 0:
+                return None, None
             self._parse_trailers(rest_chunk)
             return 0, None
         return chunk_size, rest_chunk
